@@ -265,6 +265,8 @@ fn extract_nested_ragged<const I: u32>() {
     std::mem::forget((row0, row1));
 }
 
+// NOT REGISTERED (three below): no result in 300 s - the intermediate row value's variant is not folded, the
+// error arm of `extract` drops it => LhsValue::Map tear-down explored. The by-reference `get_nested` above is verified.
 proof!(extract_nested__ragged_borrowed_row0, 3, extract_nested_ragged::<0>());
 proof!(extract_nested__ragged_borrowed_row1, 3, extract_nested_ragged::<1>());
 proof!(extract_nested__ragged_borrowed_row_out_of_range, 3, extract_nested_ragged::<2>());
@@ -281,4 +283,13 @@ fn map_key_on_empty_map__no_value() {
     std::mem::forget(r);
     kani::cover!(true);
     std::mem::forget((m, key));
+}
+
+// with the mem::drop contract stub (see lhs_types/verif_kani/common.rs)
+#[kani::proof]
+#[kani::stub(std::mem::drop, crate::lhs_types::verif_kani::common::mem_drop__releases_nothing_observable)]
+#[kani::solver(minisat)]
+#[kani::unwind(3)]
+fn lhs_extract_index__owned_n2() {
+    extract_index::<2, false, false>()
 }
